@@ -132,6 +132,15 @@ func (g *c15g) script() C15Script {
 // value is unique so that each read is attributable to one write.
 func (g *c15g) value(depth int) plan.Value {
 	k := g.u()
+	if g.r.Chance(1, 6) {
+		// boundary values of the coercion table (these are not unique: only used where uniqueness is not needed)
+		return []plan.Value{
+			plan.Str("12"), plan.Str(" 12"), plan.Str("1.5"), plan.Str("-7"), plan.Str(""), plan.Str("1e3"), plan.Str("0x10"), plan.Str("true"),
+			plan.Float(-2.75), plan.Float(0), plan.Float(1e18), plan.Int(0), plan.Int(-5), plan.Int(1 << 40), plan.Rune(0), plan.Rune('é'),
+			plan.Bytes([]byte{}), plan.Bytes([]byte("42")), plan.Value{T: "array"}, plan.Map(nil), plan.Bool(false), plan.Bool(true),
+			plan.Value{T: "nan"},
+		}[g.r.Intn(23)]
+	}
 	switch x := g.r.Intn(22); {
 	case x == 0:
 		return plan.Nil()
